@@ -3,6 +3,7 @@ package vc
 import (
 	"fmt"
 	"go/constant"
+	"go/ast"
 	"go/token"
 	"go/types"
 	"os"
@@ -415,6 +416,22 @@ func (x *Exec) checkSites(fn *ssa.Function, spec *FuncSpec) {
 		ok := func() {
 			c := &Clause{Kind: "site-bound", Label: key, Func: x.funcName(fn), Props: props}
 			x.Sink.Instances = append(x.Sink.Instances, &Instance{Name: obName(x.Sink.Pass, c), Clause: c, Goal: True})
+		}
+		if strings.HasSuffix(base, "#*") {
+			// "call f *": every call of f in the function, whatever its ordinal -
+			// for clauses that must not depend on the order of the sites
+			any := false
+			for k := range sm.All {
+				if strings.HasPrefix(k, base[:len(base)-1]) {
+					any = true
+				}
+			}
+			if any {
+				ok()
+			} else {
+				fail("no instruction binds to site " + base)
+			}
+			continue
 		}
 		in, found := sm.All[base]
 		if !found {
@@ -1701,18 +1718,60 @@ func (x *Exec) siteHooks(s *State, f *Frame, in ssa.Instruction, kind, name stri
 		return nil
 	}
 	keys := x.sites(f.Fn).Keys[in]
-	for _, k := range keys {
-		key := k
-		if sub != nil {
-			key = k + "." + *sub
+	for _, k0 := range keys {
+		cands := []string{k0}
+		if i := strings.LastIndex(k0, "#"); i >= 0 {
+			cands = append(cands, k0[:i]+"#*")
 		}
-		ss := f.Spec.Sites[key]
-		if ss == nil {
-			continue
+		for _, k := range cands {
+			key := k
+			if sub != nil {
+				key = k + "." + *sub
+			}
+			ss := f.Spec.Sites[key]
+			if ss == nil {
+				continue
+			}
+			x.runClauses(s, f, ss.Clauses, bind, in)
 		}
-		x.runClauses(s, f, ss.Clauses, bind, in)
 	}
 	return nil
+}
+
+// anyReason evaluates the assertion of a wildcard site ("at call f * ..."):
+// a disjunction of reasons, each of which may mention locals that exist only
+// at some of the sites. A disjunct that cannot be evaluated at this site (a
+// local that has no value on this path) counts as false - it cannot be the
+// reason here. Dropping disjuncts only makes the assertion harder to meet.
+func anyReason(env *Env, e ast.Expr) *Term {
+	var ds []ast.Expr
+	var split func(e ast.Expr)
+	split = func(e ast.Expr) {
+		switch b := e.(type) {
+		case *ast.BinaryExpr:
+			if b.Op == token.LOR {
+				split(b.X)
+				split(b.Y)
+				return
+			}
+		case *ast.ParenExpr:
+			split(b.X)
+			return
+		}
+		ds = append(ds, e)
+	}
+	split(e)
+	out := False
+	for _, d := range ds {
+		side := env.Side
+		t, err := env.EvalBool(d)
+		if err != nil {
+			env.Side = side
+			continue
+		}
+		out = Or(out, t)
+	}
+	return out
 }
 
 func (x *Exec) runClauses(s *State, f *Frame, clauses []*Clause, bind map[string]Value, in ssa.Instruction) {
@@ -1734,7 +1793,13 @@ func (x *Exec) runClauses(s *State, f *Frame, clauses []*Clause, bind map[string
 			s.Assume(t)
 			x.Sink.NoteAssume(c)
 		case "assert":
-			t, err := env.EvalBool(c.Expr)
+			var t *Term
+			var err error
+			if strings.Contains(c.Site, "#*") {
+				t = anyReason(env, c.Expr)
+			} else {
+				t, err = env.EvalBool(c.Expr)
+			}
 			if err != nil {
 				evalErr("%s at %s assert %s: %v", c.Func, c.Site, c.Label, err)
 			}
